@@ -31,6 +31,12 @@ def run(repo, rep):
     from . import c05
 
     rep.run_borrowed(c05, {"C05-c": "C12-a"}, repo)
+    # write protection of multi-consumer inputs (decides whether an OFM may take its IFM's address) [shared with C03-f];
+    # element sizes: DataType.<kind><bits> has that many bits (tensor storage sizes are elements * bits / 8) [shared with C11-b]
+    from . import c03, c11
+
+    rep.run_borrowed(c03, {"C03-f": "C12-d"}, repo, only_sites=("extract_npu_subgraphs", "live_range"))
+    rep.run_borrowed(c11, {"C11-b": "C12-a"}, repo, only_sites=("data_type",))
     sw = repo.mod("stats_writer")
     got_get = any(isinstance(n_, ast.Call) and norm(n_.func) == "nng.memory_used.get" for n_ in ast.walk(sw.tree))
     got_arg = any(isinstance(n_, ast.Call) and any(norm(a_) == "nng.memory_used" for a_ in list(n_.args) + [k_.value for k_ in n_.keywords]) for n_ in ast.walk(sw.tree))
